@@ -101,6 +101,7 @@ def _(c):
     c.ensures('result.num_reactions == num_reactions and result.num_cols == queue_length and result.dt == dt', label='shape')
     c.ensures('forall(lambda r, k: implies(in_view(result, r, k), pend(result, r, k) == 0.0))', label='empty')
     c.ensures('result.next_queue_time == 0.0 + dt', label='clock')
+    c.opt(verify_only=True)      # call sites execute the (loop-free) body
 
 
 @fuc('simulator', Q + '.copy', props=['C20', 'C10', 'C19'])
